@@ -48,9 +48,11 @@ impl<'a> FciParser<'a> for Rpsi<'a> {
             });
         }
         let ret = Self { data };
-        if ret.padding_bytes() > data.len() - 2 {
+        // the padding bits cannot outnumber the bits of the bit string
+        let padding_bits = data[0] as usize;
+        if padding_bits > 8 * (data.len() - 2) {
             return Err(RtcpParseError::Truncated {
-                expected: ret.padding_bytes() + 2,
+                expected: (padding_bits + 7) / 8 + 2,
                 actual: data.len(),
             });
         }
